@@ -137,6 +137,9 @@ def ys(draw, m, kinds=None, nonconstant=False):
         y = [((-1) ** i) * v for i, v in enumerate(draw(st.lists(fl(0.1, 10.0), min_size=m, max_size=m)))]
     else:
         y = [1e6 + v for v in draw(st.lists(fl(-10.0, 10.0), min_size=m, max_size=m))]
+    # magnitudes next to the bottom of the normal range are snapped to zero: products value * gap would underflow
+    # into subnormals and lose all relative precision (a float-range corner, not the subject of any property)
+    y = [0.0 if 0 < abs(v) < 1e-100 else v for v in y]
     if nonconstant and m >= 2 and all(v == y[0] for v in y):
         y[-1] = y[0] + 1.0
         kind = kind + "+1"
